@@ -526,6 +526,10 @@ func harnessAPI(name string) (IntrinsicFn, bool) {
 			in.ghost["basicauth"] = TupleV{E: []Value{args[0], args[1], args[2], args[3]}}
 			return nil
 		}, true
+	case "verifEncoded":
+		return func(in *Interp, _ *frame, fn *ssa.Function, args []Value, _ tokenPos) Value {
+			return in.mkSlice(append([]Value{}, in.encoded...), fn.Signature.Results().At(0).Type().Underlying().(*types.Slice).Elem())
+		}, true
 	case "verifJSONBody":
 		return func(in *Interp, _ *frame, fn *ssa.Function, args []Value, _ tokenPos) Value {
 			in.ghost["body:json"] = args[0]
